@@ -1,11 +1,64 @@
-NOTES = ("All checks are seeded searches over simulated executions of the real aiohomekit code (see DESIGN.md). "
-         "./check.py <id> --selftest runs the determinism self-test for a check.")
+NOTES = ("All checks are seeded searches over simulated executions of the real aiohomekit code (DESIGN.md): one integer (VERIF_SEED) decides every "
+         "workload operation, delay, segmentation, peer misbehaviour, fault and crash point; failures are minimised (ddmin over plan operations and "
+         "fault decisions) and written as replay files that ./check.py <id> --replay <file> re-executes. ./check.py <id> --selftest runs the "
+         "determinism self-test of a check (every seed twice in-process plus once in a fresh interpreter under another PYTHONHASHSEED). "
+         "tools/mutants.py runs the sensitivity self-test (small realistic mutants per property). known_findings.json lists the genuine defects "
+         "found; all of them were repaired by 'fix:' commits in /repo, so no KNOWN-FINDING line is expected on the current tree.")
 NB = "not built yet in this session (planned, see DESIGN.md section 7); no claim is made"
+SIM = "deterministic simulation with fault injection: "
 CHECKS = {
+ "C01": dict(level="exploration", design_ref="DESIGN.md section 7 C01",
+   text="Seeded search over pair-verify exchanges between the real get_session_keys (bare generator with IP-/BLE-style decoding, session resume, and the full SecureHomeKitConnection on simulated TCP) and an independent reference accessory that applies one seeded forgery/corruption per run; an independent verifier judges the bytes actually delivered. Keys produced => delivered reply authentic; honest => accessory accepts the controller proof and both ends hold identical keys.",
+   note="Reference accessory and verifier written from the HAP spec (trusted base; calibrated on the honest path). Absent State field tolerated like the library documents. BLE/CoAP transports reuse the same generator; their drivers are not part of this check. Sampling, not proof.",
+   technique=SIM + "Byzantine-peer / in-flight corruption search against an independent reference verifier"),
+ "C02": dict(level="exploration", design_ref="DESIGN.md section 7 C02",
+   text="Seeded search over SRP exchanges between the real pair-setup generators (SrpClient) and an independent RFC 5054/HomeKit SRP server, with a directed entropy source (os.urandom seam) that produces secrets whose A, B, S, K, M1 or M2 start with 0x00 and zero/leading-zero salts, plus in-flight single-bit corruption of the accessory proof and wrong setup codes.",
+   note="Narrow simulation target: entropy seam and corruption injector only, no scheduling dimension. Width rules inside M1/K follow HomeKit fixed-width padding; cannot be cross-checked against Apple's implementation offline.",
+   technique=SIM + "two-party exchange with directed entropy against an independent SRP-6a reference"),
+ "C03": dict(level="exploration", design_ref="DESIGN.md section 7 C03",
+   text="Seeded search over full pair-setup exchanges (bare generators with IP-/BLE-style decoding, and IpDiscovery over simulated TCP) against an independent reference accessory applying one seeded mutation per run to M2/M4/M6 (bit/byte corruption, removal, resizing, truncation, forged proof, wrong key/nonce/signing key/identifier/labels); independent verification of the delivered M4/M6; returned record checked for self-consistency and used for a pair-verify.",
+   note="BLE and CoAP discovery drivers are not part of this check (their transports are simulated in other checks). Reference from the HAP spec. Sampling.",
+   technique=SIM + "Byzantine-peer search with an independent reference accessory and verifier"),
+ "C04": dict(level="fault_enumeration", design_ref="DESIGN.md section 7 C04",
+   text="Enumerates a grid of ~5000 cells (protocol step x error code x state variant x other fields kept/dropped x error-before-state x driver) and executes every cell on the real code through a real driver (bare generators with/without the expected-types filter; SecureHomeKitConnection, IpDiscovery, IpPairing.add_pairing/remove_pairing on simulated TCP); checks the exception class and that nothing is ever returned as success.",
+   note="Add/remove pairing and transport drivers are enumerated on IP; BLE/CoAP management calls are not in the grid. The quick tier visits each cell once (measured as distinct abstract states).",
+   technique=SIM + "fault enumeration: scripted accessory error replies through the real protocol drivers"),
+ "C05": dict(level="exploration", design_ref="DESIGN.md section 7 C05",
+   text="Two seeded modes: (a) real secure sessions over simulated TCP with boundary-sized requests/responses/events, accessory frame-size policies, segmentation styles and single-bit corruption of a length prefix, ciphertext or tag; (b) the real SecureHomeKitProtocol fed a reference-encrypted stream under every single cut and structurally chosen/random double and multi cuts. Reference AEAD deframer decodes every transport call; delivered plaintext must equal what the accessory encoded; corrupted frames must never be delivered and must end the session.",
+   note="Reference framing (LE16 length as AAD, 4 zero bytes + LE64 counter) from the HAP spec. Sampling; exhaustive only over single cuts of each generated stream.",
+   technique=SIM + "delivery-schedule (segmentation) and corruption search with a reference AEAD deframer"),
  "C07": dict(level="exploration", design_ref="DESIGN.md section 7 C07",
    text="Seeded search over reference-emitted message sequences x segmentations (every single cut, structurally chosen and random double cuts, random multi-cuts) fed to the real feed loop and parser; compares completed messages with what was emitted.",
    note="Well-formed = what the reference emitter produces (CRLF, Content-Length or lower-case chunked without extensions/trailers). Sampling, not proof.",
-   technique="deterministic simulation: delivery-schedule (segmentation) search against a reference emitter"),
+   technique=SIM + "delivery-schedule (segmentation) search against a reference emitter"),
+ "C08": dict(level="exploration", design_ref="DESIGN.md section 7 C08",
+   text="Seeded search over interleavings of 1-4 concurrent callers, tagged responses (whole/in pieces, delayed around the 30 s timer), EVENT bursts, cancellations, own timeouts, peer FIN/RST, silence and unsolicited responses on the real IpPairing over simulated TCP in virtual time; checks attribution, exception classes, abandonment of out-of-sync connections and prompt completion; disturb -> heal -> judge.",
+   note="SimTransport models CPython's selector transport (DESIGN appendix B). Unsolicited responses are injected only while idle (otherwise indistinguishable in HTTP/1.1). Sampling.",
+   technique=SIM + "virtual-time asyncio loop, simulated TCP, schedule and fault search with history oracles"),
+ "C09": dict(level="exploration", design_ref="DESIGN.md section 7 C09",
+   text="Always-on byte-level monitor at the transport seam (write/writelines) in a workload that varies connected host form (IPv4, IPv6, scoped IPv6), methods, id sets and nested JSON payloads through the public pairing API; each transport call must carry exactly one request (after verify: decoded by the reference deframer) in the canonical form.",
+   note="Canonical form as stated in the property/README; JSON compactness = no whitespace outside string literals (number formatting is not judged).",
+   technique=SIM + "I/O-seam monitor with strict grammar over a seeded API workload"),
+ "C10": dict(level="exploration", design_ref="DESIGN.md section 7 C10",
+   text="Seeded search over per-attempt outcomes (connect refused/black-holed/slow, every pair-verify failure kind, drops after verify) x 1-4 advertised addresses x zeroconf updates, callers, close/shutdown at arbitrary virtual times with horizons up to 2 h; oracles for keeps-trying, back-off growth/cap, no busy loop, single connector, waiting callers, exclusions, after-close; disturb -> heal -> judge (bounded liveness: reconnected within 140 s after faults stop (in-flight attempt <= 70 s + one 60 s back-off)).",
+   note="Attempt boundaries observed by wrapping the connection object's _connect_once from the harness. Back-off lower bound asserted 0.5 s. Narrow reading of 'no address excluded forever' (DESIGN section 7 C10).",
+   technique=SIM + "virtual-time fault-sequence search with history oracles and bounded liveness"),
+ "C11": dict(level="exploration", design_ref="DESIGN.md section 7 C11",
+   text="Same world as C10, biased to failing verifies, slow-drain closes and peer closes of old connections; after every step in which all runnable callbacks have run, at most the connection in use may be open on the controller side; close()/shutdown() never raise and leave none open; loss of an abandoned connection never closes the one in use.",
+   note="A connection counts as closed by the controller from transport.close()/socket.close(). Sampling.",
+   technique=SIM + "idle-point invariants over simulated TCP connection sets"),
+ "C12": dict(level="exploration", design_ref="DESIGN.md section 7 C12",
+   text="Seeded histories of subscribe/unsubscribe, listeners (raising, added/removed, self-removing), reconnect cycles, event bursts/splits, empty and non-JSON events; accessory-side per-session registration sets and per-listener logs checked against a reference model.",
+   note="Polling fallback recognised on the wire; subscription requests are never answered with 4xx in this profile. Model lower bound for re-subscription: calls completed before the attempt began.",
+   technique=SIM + "history search with reference model of subscriptions and exactly-once event delivery"),
+ "C13": dict(level="exploration", design_ref="DESIGN.md section 7 C13",
+   text="Seeded request sets against a reference IP accessory that draws per-characteristic status vectors, 204/207 variants, request-wide statuses with partial lists and garbled entries; results and listener notifications are checked against the accessory's ground truth (which writes it applied, which status it sent).",
+   note="Claimed for the IP transport only in this revision (CoAP/BLE result mapping not yet simulated here). Entries with ids but no status are outside the stated quantifier.",
+   technique=SIM + "peer-side fault injection with ground-truth oracle"),
+ "C20": dict(level="fault_enumeration", design_ref="DESIGN.md section 7 C20",
+   text="Enumerates crash points of the pairing-file save and of the cache write-through (every file operation x stratified byte prefixes) on a simulated file system, restarts on the surviving files, and checks durability (old or new, never neither), round-trip of every named field and tolerance of torn/garbled caches.",
+   note="Process-crash model (buffered bytes may be lost or written as any prefix; rename atomic); no power-loss reordering.",
+   technique=SIM + "crash-point enumeration on a simulated file system with restart"),
 }
 NOT_APPLICABLE = {
  "C14": "pure function of (value, metadata): no schedule, clock, fault, peer or history for a simulator to vary (DESIGN.md section 7 C14); a property-based test is the right tool, not this technique",
